@@ -1514,7 +1514,9 @@ pub fn c13(rec: &mut Rec, rng: &mut Rng, thorough: bool) {
                 _ => Some(rng.range(1, 40)),
             };
             let v11 = rng.chance(1, 2);
-            let mut head = format!("PUT /e HTTP/1.{}\r\n", if v11 { 1 } else { 0 }).into_bytes();
+            // (the method plays no part in the rule: GET with a declared body is accepted by a connection)
+            let method = *rng.pick(&["PUT", "PUT", "PATCH", "GET"]);
+            let mut head = format!("{} /e HTTP/1.{}\r\n", method, if v11 { 1 } else { 0 }).into_bytes();
             let mut lines: Vec<String> = vec![];
             if with_expect {
                 lines.push(format!("{}:{}{}", gen::case_pattern(rng, "Expect"), rng.pick(&gen::PADS), ev));
